@@ -128,4 +128,9 @@ theorem accumulating_runtime_is_fifo (effs : List Effect) (a : Acc) :
     rw [h1, h2, h3]
     cases e <;> simp [Acc.push, isSend, isTimer, isNote, List.filter_cons]
 
+/-- what this property means by "active": Alive or Suspect, never Down — over the `is_active` the translator
+    reads from `member.rs` (an obligation of this property since the model follows the source) -/
+theorem active_is_alive_or_suspect (st : St) : Gen.isActive st = (st != .down) := by
+  cases st <;> rfl
+
 end Foca.C08
